@@ -11,6 +11,7 @@ import operator
 from typing import NamedTuple
 
 TABLE = {}
+_UNITS = {"s": 1, "ms": 1000}
 
 
 class _Span(NamedTuple):
@@ -370,6 +371,40 @@ def a_zip_display(p, f, u, v):
 def b_zip_display(p, f, u, v):
     return tuple(f(k, c) for k, c in zip((u, v), p))
 
+def a_search_preset(xs, enc):
+    for x in xs:
+        v = enc(x)
+        if v is not None:
+            return v
+    return None
+def b_search_preset(xs, enc):
+    found = None
+    for x in xs:
+        if (v := enc(x)) is not None:
+            found = v
+            break
+    return found
+
+def a_cond_record(k, p, q):
+    return p if k == "a" else q
+def b_cond_record(k, p, q):
+    plan = _Span(p, 0) if k == "a" else _Span(q, 1)
+    return plan.lo
+
+def a_local_call(p, q, f):
+    return [f(p, 1), f(q, 1)]
+def b_local_call(p, q, f):
+    def g(v):
+        return f(v, 1)
+    return [g(p), g(q)]
+
+def a_const_member(x):
+    return x + 1
+def b_const_member(x, unit="s"):
+    if unit not in _UNITS:
+        raise ValueError(unit)
+    return x + 1
+
 def a_neq_search_default(xs, enc):
     for x in xs:
         v = enc(x)
@@ -394,7 +429,7 @@ EQUAL = ["helper", "raise_in_helper", "ite", "single_exit", "loop_append", "dict
          "partial", "format", "match", "augadd", "display_append", "dict_update", "slice", "gen_helper", "takewhile", "table",
          "record_methods", "any_display", "yield_chain", "unroll", "or_none", "demorgan", "map_fused", "cond_list",
          "search_loop", "comp_display", "star_display", "map_display", "dict_values", "dict_setitem", "empty_appends", "extend_comp",
-         "multi_fill", "local_gen", "zip_display"]
+         "multi_fill", "local_gen", "zip_display", "search_preset", "cond_record", "local_call"]
 DIFFERENT = ["neq_filter", "neq_later_mutation", "neq_order", "neq_search_default"]
 
 
